@@ -100,11 +100,11 @@ CHECKS = {
         "technique": "explicit-state bounded model checking: full multi-version dump of the live SSTs before and after every compaction step of every history <= d, compared as multisets / against an independent reading of the GC policy",
         "design_ref": "DESIGN.md 4 (C05)",
         "jobs": {
-            "quick": [tree("C05", 5, 3, alphabet=ING_STRADDLE), seq("C05", 4)],
-            "thorough": [tree("C05", 6, 4, ["--min-depth", 5, "--budget", 1800], alphabet=ING_STRADDLE), seq("C05", 5), seq("C05", 4, "A-min,B-l0,F-anygc,G-mand4-stall2")],
+            "quick": [seq("C05", 3, "L-keepall", ["--only-seed", "merges-writing-many-files", "--seed-depth", 3]), tree("C05", 5, 3, alphabet=ING_STRADDLE), seq("C05", 4)],
+            "thorough": [seq("C05", 4, "L-keepall,B-l0", ["--only-seed", "merges-writing-many-files", "--seed-depth", 4]), tree("C05", 6, 4, ["--min-depth", 5, "--budget", 1800], alphabet=ING_STRADDLE), seq("C05", 5), seq("C05", 4, "A-min,B-l0,F-anygc,G-mand4-stall2")],
         },
         "text": "For every history of <= d steps over an alphabet with 1.5 KiB values and 4 KiB target files (so that compaction outputs split, also inside one key's version run) whose last step is a compaction, every entry (key, timestamp, value-or-tombstone) of every manifest-listed SST is dumped before and after the step. Unless the oldest level changed, the multisets must be equal. For a garbage collection nothing may be invented, a dropped value must have at least N newer entries of its key (versions = N), a dropped tombstone must not expose an older retained value, and the newest entry of every key must survive; with any(versions=1, ttl) at now=0 no value may be dropped.",
-        "note": "The GC oracle is a conjunction of safety conditions implied by every reading of the policy documentation; retaining more than the policy requires is always allowed. A further job runs the same oracles on a bare LsmTree fed through LsmTree::ingest with externally built SSTs (ten file shapes: single puts and tombstones, whole-range files, a 5 KiB value, two versions of a key in one file; timestamps grow with the step), compaction steps, reopen and verifier passes, from the empty tree and from four seeded states (stacked oldest levels with and without a pending level-0 file, a lower-level file whose timestamps straddle an overlapping upper-level file, before and after reopening). Where the alphabet says so (C01 C04 C08 C20) it also contains two file shapes whose timestamp range straddles earlier files and ingests that park on the level-0 stall (helper thread, completed by whichever later compaction step makes room; a parked flush F! does the same for the store subject): the interplay of a stalled writer with compactions and GCs is then part of the sequential state space.",
+        "note": "The GC oracle is a conjunction of safety conditions implied by every reading of the policy documentation; retaining more than the policy requires is always allowed. A further job runs the same oracles on a bare LsmTree fed through LsmTree::ingest with externally built SSTs (ten file shapes: single puts and tombstones, whole-range files, a 5 KiB value, two versions of a key in one file; timestamps grow with the step), compaction steps, reopen and verifier passes, from the empty tree and from four seeded states (stacked oldest levels with and without a pending level-0 file, a lower-level file whose timestamps straddle an overlapping upper-level file, before and after reopening). Where the alphabet says so (C01 C04 C08 C20) it also contains two file shapes whose timestamp range straddles earlier files and ingests that park on the level-0 stall (helper thread, completed by whichever later compaction step makes room; a parked flush F! does the same for the store subject): the interplay of a stalled writer with compactions and GCs is then part of the sequential state space. Row L-keepall (nothing collected, one output file per 5 KiB entry) with the seed merges-writing-many-files drives merges that write six and twelve output files.",
     },
     "C06": {
         "level": "model_checking",
